@@ -5,14 +5,23 @@ LogScrubber machine (buffer, Write, sink) model-checked for every splitting of
 1-2 line inputs into <= 4 writes and every interleaving of two writers.
 harness/cmd/scrubdrv spells every token (addresses printed by Go's net package
 or accepted by net.ParseIP, distinct per token, seeded) and pushes every case
-through the real safelog.Scrub and safelog.LogScrubber."""
+through the real safelog.Scrub and safelog.LogScrubber.
+spec/Scrub/ScrubLong: long unterminated pending data (1 KiB .. 1 MiB) delivered
+in several writes with an address slid byte by byte across each boundary.
+spec/LogWiring + harness/cmd/logwiredrv: the log sinks of the five real
+binaries (every sink that can carry an address is behind the scrubber unless
+-unsafe-logging): the real processes are started, provoked from addresses the
+harness knows, and their log sinks are searched for those addresses."""
 import json
 import os
 import re
+import threading
 import vlib
 
 LEVEL = "model_checking"
 SPECDIR = os.path.join(vlib.SPEC, "Scrub")
+WIREDIR = os.path.join(vlib.SPEC, "LogWiring")
+BINARIES = ["broker", "probetest", "server", "proxy", "client"]
 
 # spelling classes the concretisation must have exercised (vacuity guard)
 REQUIRED_VARIANTS = {"v4", "full", "full-explicit0", "run1@start", "run1@mid", "run1@end", "run@start", "run@mid",
@@ -38,12 +47,120 @@ def _drive(chk, drv, mode, cases, n, seen, tag):
     return s
 
 
+def _gen_mod(chk, specdir, module, cfg, minimum):
+    r = vlib.tlc(specdir, module, cfg, workers=1, timeout=1500)
+    chk.add_tlc(r)
+    if r.error:
+        raise vlib.Inconclusive("case generation %s/%s failed: %s\n%s" % (module, cfg, r.error, r.out[-1500:]))
+    if len(r.prints) < minimum:
+        raise vlib.Inconclusive("vacuous: %s/%s produced only %d cases" % (module, cfg, len(r.prints)))
+    return r.prints
+
+
+def build_binaries():
+    """The real binaries, built from the repository's working tree (never from a cache of ours)."""
+    out = vlib.scratch("realbin")
+    mf = vlib.repo_modfile()
+    res = {}
+
+    def one(b):
+        res[b] = vlib.run([vlib.GO_DEFAULT, "build", "-modfile=" + mf, vlib.LINKFLAGS, "-o", os.path.join(out, b), "./" + b],
+                          cwd=vlib.REPO, env=vlib.goenv(), timeout=900)
+    ts = [threading.Thread(target=one, args=(b,)) for b in BINARIES]
+    for t in ts:
+        t.start()
+    for t in ts:
+        t.join()
+    for b, r in res.items():
+        if r.rc != 0 or r.timed_out:
+            raise vlib.Inconclusive("go build ./%s failed:\n%s" % (b, r.out[-3000:]))
+    return out
+
+
+def wiring_part(chk, q, wdrv, box):
+    """Process level (spec/LogWiring).  Runs on its own thread (the processes
+    mostly wait); everything that touches chk's verdict is handed back in box."""
+    try:
+        tl = []
+        r = vlib.tlc(WIREDIR, "LogWiring", "MC_wiring.cfg", timeout=600, keep_prints=False)
+        tl.append(r)
+        if r.error:
+            box["fail"] = "model check LogWiring/MC_wiring.cfg failed: %s\n%s" % (r.error, r.out[-1500:])
+            return
+        r = vlib.tlc(WIREDIR, "LogWiring", "MC_wiring_sens.cfg", timeout=600, keep_prints=False)
+        tl.append(r)
+        if r.error != "invariant:Wired":
+            box["fail"] = "vacuity: a carrier sink that captures log.Writer() at package initialisation (MC_wiring_sens.cfg) was not rejected by Wired (got %s)" % r.error
+            return
+        r = vlib.tlc(WIREDIR, "LogWiring", "Gen_quick.cfg" if q else "Gen_thorough.cfg", workers=1, timeout=600)
+        tl.append(r)
+        if r.error or len(r.prints) < 7:
+            box["fail"] = "LogWiring run enumeration failed: %s (%d runs)" % (r.error, len(r.prints))
+            return
+        box["tlc"] = tl
+        box["runs"] = r.prints
+        bindir = build_binaries()
+        d = vlib.scratch("logwire")
+        inp, outp = os.path.join(d, "runs.ndjson"), os.path.join(d, "out.ndjson")
+        vlib.write_ndjson(inp, r.prints)
+        rr = vlib.run([wdrv, inp, outp, str(chk.seed), bindir], timeout=400)
+        if rr.rc != 0 or rr.timed_out or not os.path.exists(outp):
+            box["fail"] = "logwiredrv failed (rc=%s timeout=%s):\n%s" % (rr.rc, rr.timed_out, rr.out[-3000:])
+            return
+        box["results"] = vlib.read_ndjson(outp)
+    except vlib.Inconclusive as e:
+        box["fail"] = str(e)
+    except Exception as e:  # noqa
+        import traceback
+        box["fail"] = "internal error in the wiring part:\n" + traceback.format_exc()
+
+
+def wiring_report(chk, box):
+    for r in box.get("tlc", []):
+        chk.add_tlc(r)
+    if "fail" in box:
+        chk.fail(box["fail"])
+        return
+    summary = None
+    for res in box["results"]:
+        if "summary" in res:
+            summary = res["summary"]
+        elif "vacuous" in res:
+            chk.fail("log wiring: " + res["vacuous"])
+        else:
+            chk.violation(res.get("sig", "unknown"), res.get("detail", ""),
+                          {"driver": "logwiredrv", "args": ["wiring"], "case": res.get("case")})
+    if summary is None:
+        chk.fail("logwiredrv wrote no summary")
+        return
+    chk.cov["evaluations"] += int(summary.get("provocations", 0))
+    chk.cov["distinct_nontrivial"] += int(summary.get("provocations", 0))
+    chk.cov["wiring_runs"] = int(summary.get("cases", 0))
+    chk.cov["wiring_dontcare_lines"] = summary.get("dontcare_lines", [])
+    chk.note("log wiring: %d real-process runs, %d provocations; lines with a harness address that Scrub itself leaves alone (not judged): %s"
+             % (summary.get("cases", 0), summary.get("provocations", 0), summary.get("dontcare_lines", [])))
+    chk.sample(box["runs"][0], limit=4)
+
+
 def run(chk, args):
     q = chk.tier == "quick"
     drv = vlib.go_build("./cmd/scrubdrv", "scrubdrv", linkflag=False)
+    wdrv = vlib.go_build("./cmd/logwiredrv", "logwiredrv", linkflag=False)
     if args.replay:
-        return replay(chk, drv, args.replay)
+        return replay(chk, drv, wdrv, args.replay)
     seen = {}
+    # 0. process level, in the background: the log sinks of the real binaries
+    box = {}
+    wt = threading.Thread(target=wiring_part, args=(chk, q, wdrv, box))
+    wt.start()
+    try:
+        scrub_parts(chk, q, drv, seen)
+    finally:
+        wt.join()
+    wiring_report(chk, box)
+
+
+def scrub_parts(chk, q, drv, seen):
 
     # 1. design level: the LogScrubber machine against the contract, every splitting / interleaving
     for cfg in (["MC_w1_quick.cfg", "MC_w2_quick.cfg"] if q else ["MC_w1_quick.cfg", "MC_w1_thorough.cfg", "MC_w2_quick.cfg"]):
@@ -95,6 +212,25 @@ def run(chk, args):
         _drive(chk, drv, "writer", cases, wn, seen, "writer")
         del cases
 
+    # 3b. long unterminated pending data (ScrubLong): 1 KiB .. 1 MiB, address slid across each boundary
+    r = vlib.tlc(SPECDIR, "ScrubLong", "MC_long_quick.cfg", timeout=1500, keep_prints=False)
+    chk.add_tlc(r)
+    chk.note("TLC ScrubLong MC_long_quick.cfg: %d distinct states, error=%s (%.0fs)" % (r.distinct, r.error, r.wall))
+    if r.error or r.distinct < 10000:
+        chk.fail("model check ScrubLong/MC_long_quick.cfg failed or vacuous: %s (%d states)\n%s" % (r.error, r.distinct, r.out[-1500:]))
+        return
+    r = vlib.tlc(SPECDIR, "ScrubLong", "MC_long_sens.cfg", timeout=600, keep_prints=False)
+    chk.add_tlc(r)
+    if r.error != "invariant:LNothingEarly":
+        chk.fail("vacuity: the mutated long-line model (flush of an unterminated buffer, MC_long_sens.cfg) was not rejected by LNothingEarly (got %s)" % r.error)
+        return
+    cases = _gen_mod(chk, SPECDIR, "ScrubLong", "Gen_long_quick.cfg" if q else "Gen_long_thorough.cfg", 5000)
+    chk.note("TLC ScrubLong: %d long-line cases" % len(cases))
+    big = [c for c in cases if c["b"] == 4096 and c["c"] == 4096 and c["pos"] == "straddle"]
+    chk.sample(big[len(big) // 2], limit=4)
+    vlib.drive_cases(chk, drv, ["long"], cases, [chk.seed, 1 if q else 2], tag="long", timeout=1500)
+    del cases
+
     # 4. real goroutines on one LogScrubber (whole lines per Write): overlapped Write calls and herds
     _drive(chk, drv, "conc", conc_cases, 20 if q else 150, seen, "conc")
 
@@ -133,7 +269,7 @@ def run(chk, args):
     ]
 
 
-def replay(chk, drv, path):
+def replay(chk, drv, wdrv, path):
     with open(path) as fh:
         doc = json.load(fh)
     rp = doc["replay"]
@@ -141,6 +277,18 @@ def replay(chk, drv, path):
     mode = rp["args"][0]
     seen = {}
     c = rp.get("case")
+    if mode == "wiring":
+        # re-run the one run of the real binary
+        box = {"runs": [c["case"]], "tlc": []}
+        bindir = build_binaries()
+        d = vlib.scratch("logwire")
+        inp, outp = os.path.join(d, "runs.ndjson"), os.path.join(d, "out.ndjson")
+        vlib.write_ndjson(inp, [c["case"]])
+        rr = vlib.run([wdrv, inp, outp, str(chk.seed), bindir], timeout=400)
+        if rr.rc != 0 or not os.path.exists(outp):
+            raise vlib.Inconclusive("logwiredrv failed:\n" + rr.out[-2000:])
+        box["results"] = vlib.read_ndjson(outp)
+        return wiring_report(chk, box)
     if mode == "conc" or not c:
         cases = _gen(chk, "Gen_lines_red5.cfg", 30000)
         _drive(chk, drv, "conc", cases, 20 if doc.get("tier") == "quick" else 150, seen, "replay")
@@ -150,7 +298,7 @@ def replay(chk, drv, path):
 
 
 MANIFEST = {
-    "technique": "TLA+ spec Scrub: contract operators Must/Exact over a token grammar enumerated by TLC as cases; LogScrubber buffer machine model-checked against the contract for all write splittings and two-writer interleavings; Go driver replays every case (seeded Go-printed / ParseIP-accepted spellings, distinct address per token) into safelog.Scrub and safelog.LogScrubber",
-    "text": "TLC enumerates every line of address-form and delimiter-class tokens up to the bound and computes, in TLA+, which address tokens must be replaced (both neighbours a line boundary, whitespace or safe punctuation) and for which lines the whole output is determined; the driver spells each token, runs the real Scrub and LogScrubber and checks that no must-replace address occurs in the output and that determined lines are exact. The writer is a TLA+ state machine (buffer, Write, sink) checked by TLC for emitted = contract scrub of the complete prefix, whole lines only, nothing lost, over every splitting into <= 4 writes and every two-writer interleaving; the same cases are replayed on the real LogScrubber (output per Write call compared with the line-wise Scrub), plus overlapped and free-running goroutine writers. Exhaustive over the grammar up to the bound, bound to the code by differential replay.",
+    "technique": "TLA+ specs Scrub / ScrubLong / LogWiring: contract operators Must/Exact over a token grammar enumerated by TLC as cases; LogScrubber buffer machine model-checked against the contract for all write splittings and two-writer interleavings; Go driver replays every case (seeded Go-printed / ParseIP-accepted spellings, distinct address per token) into safelog.Scrub and safelog.LogScrubber",
+    "text": "TLC enumerates every line of address-form and delimiter-class tokens up to the bound and computes, in TLA+, which address tokens must be replaced (both neighbours a line boundary, whitespace or safe punctuation) and for which lines the whole output is determined; the driver spells each token, runs the real Scrub and LogScrubber and checks that no must-replace address occurs in the output and that determined lines are exact. The writer is a TLA+ state machine (buffer, Write, sink) checked by TLC for emitted = contract scrub of the complete prefix, whole lines only, nothing lost, over every splitting into <= 4 writes and every two-writer interleaving; the same cases are replayed on the real LogScrubber (output per Write call compared with the line-wise Scrub), plus overlapped and free-running goroutine writers. Long unterminated pending data (ScrubLong: 1 KiB..1 MiB, chunk sizes 1/7/512/4095/4096/4097/cut/whole, address slid byte by byte across each boundary) is modelled with byte counts and replayed the same way. Process level (LogWiring): the sink tables of the five binaries are model-checked for 'every address-carrying sink is behind the scrubber unless unsafe logging', and the real binaries are started, provoked from addresses the harness knows (failed TLS handshakes, malformed/oversized requests, bind address, client_ip, dead broker, SOCKS connect) and their log sinks searched for those addresses. Exhaustive over the grammar up to the bound, bound to the code by differential replay.",
     "note": "Bounded: lines of <= 3 tokens over the full alphabet (4 over a 19-token alphabet, 5-6 over an 8-token alphabet), 1-2 line inputs, <= 4 writes, 2 writers; spellings are seeded random draws per token (vacuity-guarded by class), not enumerated. Don't-care: addresses next to word characters, ':', '[' ']', another address or an inner '.', zone text, accidental addresses spelled by delimiter tokens.",
 }
